@@ -298,6 +298,15 @@ def exit_signature(tr, b):
                 R, i = load_parts(a[1])
                 if R and any(proj_path(i, P) is not None for P in tr.P) and a[0] == "true":
                     return "popped-vertex-already-marked"
+            if a[0] == "ne" and ("const", "usize", 0) in a[1:] or a[0] == "ne" and ("const", "u64", 0) in a[1:]:
+                # visited kept as a bit set: words[x >> k] & (1 << (x & m)) != 0 for the popped x
+                w_ = [x for x in a[1:] if x[0] == "bin" and x[1] == "BitAnd"]
+                for bt in w_:
+                    for wd, mk in ((bt[2], bt[3]), (bt[3], bt[2])):
+                        R, i = load_parts(wd) if wd[0] == "mem" else (None, None)
+                        if R and i is not None and i[0] == "bin" and i[1] == "Shr" and any(proj_path(i[2], P) is not None for P in tr.P) \
+                                and mk[0] == "bin" and mk[1] == "Shl":
+                            return "popped-vertex-already-marked"
             if a[0] in ("ne", "lt") or (a[0] == "eq"):
                 xs = a[1:]
                 for x in xs:
@@ -1036,6 +1045,19 @@ def rule_schema_dfs(crate, prop, tier):
                             and src[3][0] == ("arg", 2) and src[3][1][0] == "agg" and src[3][1][1] == "closure":
                         r = closure_return(crate, src[3][1][2])
                         okseed = r is not None and seed_elem_ok(r, ("arg", 2))
+                    elif src[0] == "call" and src[1] == "core::iter::traits::iterator::Iterator::zip" and len(src[3]) == 2:
+                        # sources.zip(repeat(0)) / repeat(None).zip(sources): every source once, paired with the constant
+                        a_, b_ = src[3]
+
+                        def rep_of(t):
+                            if t[0] == "call" and t[1] in ("core::iter::sources::repeat::repeat", "core::iter::sources::repeat_with::repeat_with") and t[3]:
+                                return t[3][0]
+                            return None
+                        if nm == "DfsDist":
+                            okseed = a_ == ("arg", 2) and rep_of(b_) is not None and const_is(rep_of(b_), 0)
+                        elif nm == "DfsPred":
+                            rv_ = rep_of(a_)
+                            okseed = b_ == ("arg", 2) and rv_ is not None and rv_[0] == "agg" and rv_[2][1] == "None"
                 else:
                     # explicit loop: every source is pushed on an initially empty local stack
                     qL = local_region_of_value(wv)
